@@ -89,22 +89,34 @@ func (m *RWMutex) RLock() {
 		rt.Point(rt.OpRLock, uintptr(unsafe.Pointer(m)), func() bool { return m.writer.Load() == 0 })
 	}
 	m.mu.RLock()
-	m.readers.Add(1)
+	m.readerDelta(1)
 }
+
+// readerDelta updates the scheduler's mirror of the reader count.  The update is hidden
+// from the race detector: an atomic read-modify-write would order two readers' critical
+// sections, an edge the real RWMutex does not provide (it would hide reader/reader races).
+//
+//go:norace
+func (m *RWMutex) readerDelta(d int32) {
+	rt.RaceDisable()
+	m.readers.Add(d)
+	rt.RaceEnable()
+}
+
 
 func (m *RWMutex) TryRLock() bool {
 	if rt.Active() {
 		rt.Point(rt.OpRLock, uintptr(unsafe.Pointer(m)), nil)
 	}
 	if m.mu.TryRLock() {
-		m.readers.Add(1)
+		m.readerDelta(1)
 		return true
 	}
 	return false
 }
 
 func (m *RWMutex) RUnlock() {
-	m.readers.Add(-1)
+	m.readerDelta(-1)
 	m.mu.RUnlock()
 	if rt.Active() {
 		rt.Point(rt.OpRUnlocked, uintptr(unsafe.Pointer(m)), nil)
@@ -129,7 +141,11 @@ func (w *WaitGroup) Add(delta int) {
 	if rt.Active() {
 		rt.Point(rt.OpWgAdd, uintptr(unsafe.Pointer(w)), nil)
 	}
+	// mirror for the scheduler, hidden from the race detector (the real WaitGroup below
+	// provides the program's own ordering)
+	rt.RaceDisable()
 	w.n.Add(int64(delta))
+	rt.RaceEnable()
 	w.wg.Add(delta) // panics on a negative counter exactly like the original
 }
 
